@@ -36,6 +36,13 @@ class Contract:
         self.max_paths = kw.pop("max_paths", None)
         self.assume_pre: list[str] = kw.pop("assume_pre", [])
         self.ghost_exit: dict[str, str] = kw.pop("ghost_exit", {})  # ghost location -> new value (old() = entry state)
+        # check_frame: opt-in syntactic frame check - every heap field written on a path (other than at objects created
+        # on that path) must be named by some `modifies` entry (see verify._frame_check)
+        self.check_frame: bool = kw.pop("check_frame", False)
+        # stop_at: anchors (statement text) at which the path ENDS after the cuts placed there are proved: a PREFIX
+        # verification - nothing is claimed about the code from that statement on (no exit obligations are generated)
+        self.stop_at: list[str] = kw.pop("stop_at", [])
+        self.entry_ref_lists: list[str] = kw.pop("entry_ref_lists", [])  # see verify._run_path
         self.exit_cuts: list[str] = kw.pop("exit_cuts", [])  # ghost cuts proved then assumed at every normal exit
         self.specialize: dict[str, list] = kw.pop("specialize", {})  # param -> concrete values (case split, completeness proved)  # labelled assumptions (listed in evidence)
         if kw:
